@@ -230,6 +230,16 @@ def main(argv=None):
         for f in findings:
             if f["status"] == "open" and any(_match(nm, pat) for pat in f.get("obligations", [])):
                 if nm in native_items:  # the failing native clause is itself the witness
+                    # a finding recorded with the inputs that fail on the unchanged tree covers exactly those: a failing
+                    # input it does not list is a different violation of the same clause
+                    rec = (f.get("inputs") or {}).get(nm)
+                    got = ob_detail[nm].get("witness", {}).get("inputs")
+                    if rec is not None and got is not None:
+                        new = sorted(set(got) - set(rec))
+                        if new:
+                            ob_detail[nm]["new_inputs"] = new[:10]
+                            ob_detail[nm]["model"] = json.dumps(dict(clause=nm, failing_inputs_not_listed_in_the_known_finding=new[:10], finding=f["id"]))[:2000]
+                            continue
                     covered_by[nm] = f
                     break
                 w = run_witness(f, wcache)
